@@ -171,6 +171,7 @@ def charval(txt: str):
     assert txt[0] == "'"
     assert txt[-1] == "'"
     txt = txt[1:-1]
-    assert len(txt) == 1
+    if len(txt) != 1:
+        raise ValueError(f"Invalid character constant '{txt}'")
     # TODO: implement wide characters!
     return ord(txt), ["char"]
